@@ -108,7 +108,10 @@ class init_io_nodes:
         n0 = len(old(self.hugr._tn_op))
         return {"P_exactly_two_children_created": len(h._tn_op) == n0 + 2 and aligned(h),
                 "P_input_then_output_under_the_container": io_pair(self, h, n0, parent_op, self.parent_node),
-                "P_earlier_calls_kept": forall(int, lambda j: implies(0 <= j and j < n0, same_obj(nth(h._tn_op, j), nth(old(self.hugr._tn_op), j))))}
+                "P_earlier_calls_kept": forall(int, lambda j: implies(0 <= j and j < n0, same_obj(nth(h._tn_op, j), nth(old(self.hugr._tn_op), j))
+                                                                      and eq(nth(h._tn_node, j), nth(old(self.hugr._tn_node), j))
+                                                                      and eq(nth(h._tn_parent, j), nth(old(self.hugr._tn_parent), j))
+                                                                      and eq(nth(h._tn_outs, j), nth(old(self.hugr._tn_outs), j))))}
 
 
 # ---- DfBase.set_outputs: the container's output row is the row of its Output node ----------------------
@@ -274,3 +277,113 @@ class add_op:
                 and nth(self._tw_node, w - 1).idx == nth(h._tn_node, n - 1).idx and eq(nth(self._tw_wires, w - 1), args),
                 "P_handle_is_the_new_node": result.idx == nth(h._tn_node, n - 1).idx,
                 "P_handle_knows_the_output_count": notNone(result._num_out_ports) and the(result._num_out_ports) == outs_of(op)}
+
+
+@contract("hugr.build.dfg.DfBase.new_nested", props=["C01"])
+class new_nested:
+    types = {"parent_op": "DfParentOp", "hugr": "Hugr", "parent": "Opt[Node]"}
+    returns = "DfBase"
+
+    def requires(cls, parent_op, hugr, parent):
+        return aligned(hugr)
+
+    def modifies(cls, parent_op, hugr, parent):
+        return [hugr._tn_op, hugr._tn_parent, hugr._tn_outs, hugr._tn_node, hugr._nodes, hugr._free_nodes]
+
+    def raises(cls, parent_op, hugr, parent):
+        return {}
+
+    def ensures(cls, parent_op, hugr, parent, result):
+        n0 = len(old(hugr._tn_op))
+        return {"P_three_nodes": len(hugr._tn_op) == n0 + 3 and aligned(hugr),
+                "P_container_first": same_obj(nth(hugr._tn_op, n0), parent_op) and result.parent_node.idx == nth(hugr._tn_node, n0).idx and same_obj(result.hugr, hugr),
+                "P_under_the_given_parent_or_the_root": notNone(nth(hugr._tn_parent, n0)) and the(nth(hugr._tn_parent, n0)).idx == ite(isNone(parent), hugr.root, the(parent)).idx,
+                "P_then_input_and_output_under_it": io_pair(result, hugr, n0 + 1, parent_op, result.parent_node)}
+
+
+@spec
+def wire_row(b, ws):
+    """ghost: the row of types of a list of wires (DfBase._wire_types)"""
+    return ghost("row_of_wires", "Seq[Type]", b.hugr, ws)
+
+
+@contract("hugr.build.dfg.DfBase._wire_types", props=[])
+class wire_types_named:
+    """TRUSTED: names its result; may refuse a port without a dataflow type."""
+    trusted = True
+    exact_self = False
+    types = {"args": "Seq[Union[Node, OutPort]]"}
+    returns = "Seq[Type]"
+    may_raise = ["ValueError"]
+
+    def modifies(self, args):
+        return []
+
+    def raises(self, args):
+        return {}
+
+    def ensures(self, args, result):
+        return {"A_named": eq(result, wire_row(self, args))}
+
+
+@contract("hugr.build.dfg.DfBase.add_nested", props=["C01"])
+class add_nested:
+    types = {"args": "Seq[Union[Node, OutPort]]"}
+    exact_self = False
+    returns = "hugr.build.dfg.Dfg"
+    may_raise = ["ValueError"]
+
+    def requires(self, args):
+        return aligned(self.hugr) and len(self._tw_node) == len(self._tw_wires)
+
+    def modifies(self, args):
+        h = self.hugr
+        return [h._tn_op, h._tn_parent, h._tn_outs, h._tn_node, h._nodes, h._free_nodes, self._tw_node, self._tw_wires, h._links.fwd, h._links.bck,
+                "hugr.ops.Output._types", "hugr.ops.DataflowOp._g_epoch"]
+
+    def raises(self, args):
+        return {}
+
+    def ensures(self, args, result):
+        h = self.hugr
+        n0 = len(old(self.hugr._tn_op))
+        w = len(self._tw_node)
+        op = nth(h._tn_op, n0)
+        return {"P_a_DFG_whose_inputs_are_the_types_of_the_wires": len(h._tn_op) == n0 + 3 and cls_is(op, hugr.ops.DFG) and eq(as_cls(op, hugr.ops.DFG).inputs, wire_row(self, args)),
+                "P_under_this_container": notNone(nth(h._tn_parent, n0)) and the(nth(h._tn_parent, n0)).idx == self.parent_node.idx and same_obj(result.hugr, h)
+                and result.parent_node.idx == nth(h._tn_node, n0).idx,
+                "P_with_its_input_and_output_nodes": io_pair(result, h, n0 + 1, op, result.parent_node),
+                "P_the_wires_go_to_the_nested_container_in_order": w == len(old(self._tw_node)) + 1 and len(self._tw_wires) == w
+                and nth(self._tw_node, w - 1).idx == result.parent_node.idx and eq(nth(self._tw_wires, w - 1), args)}
+
+
+@contract("hugr.build.dfg.DfBase.add_tail_loop", props=["C01"])
+class add_tail_loop:
+    types = {"just_inputs": "Seq[Union[Node, OutPort]]", "rest": "Seq[Union[Node, OutPort]]"}
+    exact_self = False
+    returns = "hugr.build.cond_loop.TailLoop"
+    may_raise = ["ValueError"]
+
+    def requires(self, just_inputs, rest):
+        return aligned(self.hugr) and len(self._tw_node) == len(self._tw_wires)
+
+    def modifies(self, just_inputs, rest):
+        h = self.hugr
+        return [h._tn_op, h._tn_parent, h._tn_outs, h._tn_node, h._nodes, h._free_nodes, self._tw_node, self._tw_wires, h._links.fwd, h._links.bck,
+                "hugr.ops.Output._types", "hugr.ops.DataflowOp._g_epoch"]
+
+    def raises(self, just_inputs, rest):
+        return {}
+
+    def ensures(self, just_inputs, rest, result):
+        h = self.hugr
+        n0 = len(old(self.hugr._tn_op))
+        w = len(self._tw_node)
+        op = nth(h._tn_op, n0)
+        return {"P_a_TailLoop_typed_by_the_wires": len(h._tn_op) == n0 + 3 and cls_is(op, hugr.ops.TailLoop)
+                and eq(as_cls(op, hugr.ops.TailLoop).just_inputs, wire_row(self, just_inputs)) and eq(as_cls(op, hugr.ops.TailLoop).rest, wire_row(self, rest)),
+                "P_under_this_container": notNone(nth(h._tn_parent, n0)) and the(nth(h._tn_parent, n0)).idx == self.parent_node.idx and same_obj(result.hugr, h)
+                and result.parent_node.idx == nth(h._tn_node, n0).idx,
+                "P_with_its_input_and_output_nodes": io_pair(result, h, n0 + 1, op, result.parent_node),
+                "P_just_inputs_then_rest_go_to_the_loop_in_order": w == len(old(self._tw_node)) + 1 and len(self._tw_wires) == w
+                and nth(self._tw_node, w - 1).idx == result.parent_node.idx and eq(nth(self._tw_wires, w - 1), concat(just_inputs, rest))}
